@@ -131,6 +131,28 @@ impl FileUploadSession {
         }))
     }
 
+    /// Verification hook: an upload session that talks to the given client instead of the one the configuration names,
+    /// so that a harness can observe the order of the store calls and inject failures and delays.
+    #[cfg(xet_verif)]
+    pub async fn new_with_client(
+        config: Arc<TranslatorConfig>,
+        threadpool: Arc<ThreadPool>,
+        client: Arc<dyn Client + Send + Sync>,
+    ) -> Result<Arc<FileUploadSession>> {
+        let shard_interface = SessionShardInterface::new(config.clone(), client.clone(), false).await?;
+        Ok(Arc::new(Self {
+            shard_interface,
+            client,
+            upload_progress_updater: None,
+            threadpool,
+            repo_id: None,
+            config,
+            current_session_data: Mutex::new(DataAggregator::default()),
+            deduplication_metrics: Mutex::new(DeduplicationMetrics::default()),
+            xorb_upload_tasks: Mutex::new(JoinSet::new()),
+        }))
+    }
+
     /// Start to clean one file. When cleaning multiple files, each file should
     /// be associated with one Cleaner. This allows to launch multiple clean task
     /// simultaneously.
